@@ -12,12 +12,16 @@ import numpy as np
 from .. import campaign, tlc
 from ..core import PY, VERIF, NCPU, MachineryError, Verdict, repo_env, run_group, scratch, parallel_jobs
 
+P = {"nonorthogonal_radial_range_power": 4}
+FRESH = ("A", "B", "P", "BP")
 B = {"nonorthogonal_xpoint_poloidal_spacing_length": 0.02, "nonorthogonal_target_all_poloidal_spacing_length": 0.4}
 
 
 def settings_for(base):
     allopts = dict(base["options"])
     return {"A": {}, "B": dict(B),
+            # settings that no per-region spacing length depends on (seeded change C15_skip_regrid)
+            "P": dict(P), "BP": dict(B, **P),
             # what the GUI passes: the whole option dictionary, other keys with the values the mesh was built with
             "Ball": dict(allopts, **B),
             # other keys present with DIFFERENT values: must be ignored or the call refused
@@ -28,7 +32,7 @@ R = lambda s: ["Redistribute", s]  # noqa: E731
 C = ["CalculateRZ", None]
 G = ["Geometry", None]
 
-QUICK = [[G], [R("B"), G], [C, R("B"), G], [R("B"), R("A"), G], [R("B"), C, G], [C, R("B"), C, G], [G, R("B"), C, G], [G, R("B"), G],
+QUICK = [[R("P"), G], [R("P"), R("B"), R("BP"), G], [R("BP"), R("B"), G], [C, R("BP"), R("A"), G], [G], [R("B"), G], [C, R("B"), G], [R("B"), R("A"), G], [R("B"), C, G], [C, R("B"), C, G], [G, R("B"), C, G], [G, R("B"), G],
          [R("Bx"), G], [R("Ball"), G], [C, R("B"), R("A"), G], [R("A"), G], [C, R("Ball"), G]]
 
 
@@ -36,7 +40,7 @@ def histories(tier, seed):
     if tier == "quick":
         return QUICK
     rng = random.Random(seed)
-    alpha = [R("A"), R("B"), R("Bx"), C, G]
+    alpha = [R("A"), R("B"), R("Bx"), R("P"), R("BP"), C, G]
     hs = [list(h) + [G] for n in range(0, 4) for h in itertools.product(alpha, repeat=n)]
     rng.shuffle(hs)
     return QUICK + hs[:150]
@@ -94,7 +98,7 @@ def validate(traces, d):
 def run(tier, seed):
     v = Verdict("C15", tier, seed, "model_checking")
     v.rule = ("MC: Lifecycle.tla - over all call histories up to 8 steps the intended design keeps Fresh / GeometryFresh (and the mode 'AsFound' is "
-              "shown to break them). C->S: call histories over {Redistribute(A), Redistribute(B), Redistribute(B with other keys), CalculateRZ, Geometry} "
+              "shown to break them). C->S: call histories over {Redistribute(s) for s in A, B, B with other keys, P (only the radial range power), B+P; CalculateRZ; Geometry} "
               "ending in Geometry are executed on a real non-orthogonal LSN mesh in one interpreter; Trace_Lifecycle.tla replays each through the "
               "specification's actions, decides which setting is in force and which refusals are allowed, and requires the final positions (2e-7 m) and "
               "geometry (1e-6 relative) to equal those of a mesh built from scratch with that setting; an orthogonal mesh must refuse. A case is one history.")
@@ -112,13 +116,13 @@ def run(tier, seed):
     sets = settings_for(base)
     hs = histories(tier, seed)
     d = scratch("c15")
-    jobs = {"fresh_A": {"base": base, "settings": sets, "build_with": "A", "history": [G]},
-            "fresh_B": {"base": base, "settings": sets, "build_with": "B", "history": [G]},
-            "orth": {"base": campaign.CONFIGS["lsn_orth_g0"], "settings": sets, "build_with": "A", "history": [R("B")]}}
+    jobs = {"orth": {"base": campaign.CONFIGS["lsn_orth_g0"], "settings": sets, "build_with": "A", "history": [R("B")]}}
+    for f in FRESH:
+        jobs["fresh_" + f] = {"base": base, "settings": sets, "build_with": f, "history": [G]}
     for n, h in enumerate(hs):
         jobs["h%03d" % n] = {"base": base, "settings": sets, "build_with": "A", "history": h}
     results = {n: (jd, st) for n, jd, st in run_jobs(jobs, d)}
-    for n in ("fresh_A", "fresh_B"):
+    for n in ["fresh_" + f for f in FRESH]:
         if not results[n][1].get("dumped"):
             v.fail_machinery("reference build %s failed: %s" % (n, results[n][1]))
             return v
@@ -131,14 +135,13 @@ def run(tier, seed):
             continue
         ev = [{"ev": "BuildEq", "arg": "", "out": "ok", "exc": ""}] + list(st["events"])
         if st.get("dumped"):
-            da, ga = cmp_npz(os.path.join(jd, "final.npz"), os.path.join(results["fresh_A"][0], "final.npz"))
-            db, gb = cmp_npz(os.path.join(jd, "final.npz"), os.path.join(results["fresh_B"][0], "final.npz"))
+            cmp = {f: cmp_npz(os.path.join(jd, "final.npz"), os.path.join(results["fresh_" + f][0], "final.npz")) for f in FRESH}
         else:
-            da = ga = db = gb = 0
-        ev.append({"ev": "Compare", "arg": "", "out": "ok", "exc": "", "dpos": {"A": da, "B": db}, "dgeo": {"A": ga, "B": gb},
+            cmp = {f: (0, 0) for f in FRESH}
+        ev.append({"ev": "Compare", "arg": "", "out": "ok", "exc": "", "dpos": {f: cmp[f][0] for f in FRESH}, "dgeo": {f: cmp[f][1] for f in FRESH},
                    "user_options_unchanged": st.get("user_options_unchanged", 0)})
         for e in ev:
-            e.setdefault("dpos", {"A": 0, "B": 0}); e.setdefault("dgeo", {"A": 0, "B": 0}); e.setdefault("user_options_unchanged", 1)
+            e.setdefault("dpos", {f: 0 for f in FRESH}); e.setdefault("dgeo", {f: 0 for f in FRESH}); e.setdefault("user_options_unchanged", 1)
         traces.append({"id": len(traces) + 1, "name": n, "eqopts": "orth" if n == "orth" else "plain", "events": ev,
                        "history": jobs[n]["history"]})
     failed, res = validate(traces, d)
@@ -173,11 +176,13 @@ def run(tier, seed):
     v.sample({"engine": "C->S history", "history": traces[2]["history"], "events": [(e["ev"], e["arg"], e["out"]) for e in traces[2]["events"]],
               "compare": traces[2]["events"][-1]["dpos"]})
     # binding self-test: a history whose comparison record says 'equals fresh A' although B is in force must be rejected
-    clean = [t for t in traces if t["id"] not in failed and any(e["ev"] == "Redistribute" and e["arg"] == "B" for e in t["events"]) and t["events"][-2]["out"] == "ok"
-             and not any(e["ev"] == "Redistribute" and e["arg"] == "A" for e in t["events"])]
+    def last_setting(t):
+        r = [e["arg"] for e in t["events"] if e["ev"] == "Redistribute"]
+        return r[-1] if r else "A"
+    clean = [t for t in traces if t["id"] not in failed and last_setting(t) in ("B", "Bx", "Ball") and t["events"][-2]["out"] == "ok"]
     if clean:
         a = copy.deepcopy(clean[0]); a["id"] = 1
-        a["events"][-1]["dpos"] = {"A": 0, "B": 1999999}
+        a["events"][-1]["dpos"] = dict(a["events"][-1]["dpos"], A=0, B=1999999)
         mf, _ = validate([a], d)
         ok = "Fresh" in mf.get(1, ())
         v.note("binding_selftest", {"mutants": 1, "rejected_with_expected_clause": int(ok)})
